@@ -267,8 +267,10 @@ def default_telemetry(i, n, phase=0, prt=400, ict=(700, 410, 420), space=(990, 9
 
 def simple_track(nlines, i, lat0=10.0, lon0=20.0):
     """Smooth fake tie points (degrees) for line i: 51 points across, drifting along track."""
-    lats = [lat0 + 0.03 * i - 0.002 * k for k in range(51)]
-    lons = [lon0 + 0.01 * i + 0.25 * k for k in range(51)]
+    dlat = min(0.03, 70.0 / max(nlines, 1))      # long passes stay inside the valid latitude range
+    dlon = min(0.01, 100.0 / max(nlines, 1))
+    lats = [lat0 + dlat * i - 0.002 * k for k in range(51)]
+    lons = [lon0 + dlon * i + 0.25 * k for k in range(51)]
     return lats, lons
 
 
